@@ -701,3 +701,263 @@ func inlineBuildTail(w *World) (string, string, string) {
 	}
 	return dir, name, ""
 }
+
+// inlineBuildHead: the head of Build's pipeline (graph fill and cycle check)
+// extracted into a private helper
+//
+//	g, err := sc.dependencyGraph(all)
+//	if err != nil { return nil, err }
+//
+// is inlined in a scratch copy, so that the pipeline rules see fill, cycle
+// check, validation and provider allocation in one function again. Only the
+// plain shape is handled: one caller, results (T, error) unnamed, the helper's
+// last statement is its only success return `return X, nil`, every other return
+// is `return <zero>, E`, and the call site propagates the error unchanged.
+func inlineBuildHead(w *World) (string, string, string) {
+	ro := resolveRoles(w)
+	h := ro.doBuild
+	if h == nil || ro.allocProvider == nil || h == ro.allocProvider {
+		return "", "", ""
+	}
+	// the tail shape (doBuild calls the allocating helper) is inlineBuildTail's business
+	for _, c := range callsIn(h.Decl.Body, true) {
+		if callee(h.Pkg.TypesInfo, c) == ro.allocProvider.Obj {
+			return "", "", ""
+		}
+	}
+	name := h.Name()
+	callers := w.Callers()[h]
+	if len(callers) != 1 {
+		return "", name, fmt.Sprintf("it has %d callers", len(callers))
+	}
+	var b *FuncInfo
+	for c := range callers {
+		b = c
+	}
+	if b.Pkg != h.Pkg || b == h {
+		return "", name, "caller shape"
+	}
+	info := b.Pkg.TypesInfo
+	// results of the helper
+	res := h.Decl.Type.Results
+	if res == nil || len(res.List) != 2 || len(res.List[0].Names) != 0 || len(res.List[1].Names) != 0 {
+		return "", name, "its results are not an unnamed (T, error)"
+	}
+	// the call site: `v, err := recv.h(args)` directly followed by `if err != nil { return …, err }`
+	var parent *ast.BlockStmt
+	idx := -1
+	var call *ast.CallExpr
+	var asg *ast.AssignStmt
+	ast.Inspect(b.Decl.Body, func(x ast.Node) bool {
+		blk, ok := x.(*ast.BlockStmt)
+		if !ok {
+			return true
+		}
+		for i, st := range blk.List {
+			as, ok := st.(*ast.AssignStmt)
+			if !ok || len(as.Rhs) != 1 || len(as.Lhs) != 2 || as.Tok != token.DEFINE {
+				continue
+			}
+			c, ok := unparen(as.Rhs[0]).(*ast.CallExpr)
+			if ok && callee(info, c) == h.Obj {
+				parent, idx, call, asg = blk, i, c, as
+			}
+		}
+		return true
+	})
+	if call == nil || idx+1 >= len(parent.List) {
+		return "", name, "the call is not of the form `v, err := helper(…)` followed by an error test"
+	}
+	ifs, ok := parent.List[idx+1].(*ast.IfStmt)
+	if !ok || ifs.Init != nil || ifs.Else != nil || len(ifs.Body.List) != 1 {
+		return "", name, "the call is not followed by a plain error test"
+	}
+	vID, ok1 := asg.Lhs[0].(*ast.Ident)
+	eID, ok2 := asg.Lhs[1].(*ast.Ident)
+	if !ok1 || !ok2 || vID.Name == "_" {
+		return "", name, "left-hand side shape"
+	}
+	errObj := info.Defs[eID]
+	be, ok := unparen(ifs.Cond).(*ast.BinaryExpr)
+	if !ok || be.Op != token.NEQ || objOf(info, be.X) != errObj || !isNilIdent(info, be.Y) {
+		return "", name, "the call is not followed by `if err != nil`"
+	}
+	pret, ok := ifs.Body.List[0].(*ast.ReturnStmt)
+	if !ok || len(pret.Results) < 1 || objOf(info, pret.Results[len(pret.Results)-1]) != errObj {
+		return "", name, "the error of the helper is not returned unchanged"
+	}
+	var zeros []string
+	for _, z := range pret.Results[:len(pret.Results)-1] {
+		zeros = append(zeros, exprStr(z))
+	}
+	// later uses of err in the caller need a declaration
+	needErr := false
+	for _, st := range parent.List[idx+2:] {
+		if errObj != nil && usesObj(info, st, errObj) {
+			needErr = true
+		}
+	}
+	// the helper's body: last statement is the success return; the others are error returns
+	hb := h.Decl.Body
+	if len(hb.List) == 0 {
+		return "", name, "empty helper"
+	}
+	last, ok := hb.List[len(hb.List)-1].(*ast.ReturnStmt)
+	if !ok || len(last.Results) != 2 || !isNilIdent(h.Pkg.TypesInfo, last.Results[1]) {
+		return "", name, "the helper does not end in `return X, nil`"
+	}
+	type edit struct {
+		start, end int
+		text       string
+	}
+	off := func(p token.Pos) (string, int) {
+		ps := w.Fset.Position(p)
+		return ps.Filename, ps.Offset
+	}
+	hf, hs := off(hb.Lbrace)
+	bad := ""
+	var inner []edit
+	ast.Inspect(hb, func(x ast.Node) bool {
+		if _, isLit := x.(*ast.FuncLit); isLit {
+			return false
+		}
+		r, ok := x.(*ast.ReturnStmt)
+		if !ok || r == last {
+			return true
+		}
+		if len(r.Results) != 2 || isNilIdent(h.Pkg.TypesInfo, r.Results[1]) {
+			bad = "it has another success return (or a bare return)"
+			return true
+		}
+		_, s := off(r.Pos())
+		_, e := off(r.End())
+		inner = append(inner, edit{s, e, "return " + strings.Join(append(append([]string{}, zeros...), exprStr(r.Results[1])), ", ")})
+		return true
+	})
+	if bad != "" {
+		return "", name, bad
+	}
+	// the error expressions are re-printed from the AST: only simple ones are safe that way
+	src, err := os.ReadFile(hf)
+	if err != nil {
+		return "", name, err.Error()
+	}
+	// rewrite the error returns with their original text for the error operand
+	for i := range inner {
+		_ = i
+	}
+	inner = inner[:0]
+	ast.Inspect(hb, func(x ast.Node) bool {
+		if _, isLit := x.(*ast.FuncLit); isLit {
+			return false
+		}
+		r, ok := x.(*ast.ReturnStmt)
+		if !ok || r == last {
+			return true
+		}
+		_, s := off(r.Pos())
+		_, es := off(r.Results[1].Pos())
+		_, ee := off(r.Results[1].End())
+		_, e := off(r.End())
+		inner = append(inner, edit{s, e, "return " + strings.Join(append(append([]string{}, zeros...), string(src[es:ee])), ", ")})
+		return true
+	})
+	_, ls := off(last.Pos())
+	_, le := off(last.End())
+	_, xs := off(last.Results[0].Pos())
+	_, xe := off(last.Results[0].End())
+	inner = append(inner, edit{ls, le, vID.Name + " = " + string(src[xs:xe])})
+	_, he := off(hb.Rbrace)
+	body := append([]byte{}, src[hs+1:he]...)
+	sort.Slice(inner, func(i, j int) bool { return inner[i].start > inner[j].start })
+	for _, e := range inner {
+		s, en := e.start-(hs+1), e.end-(hs+1)
+		body = append(append(append([]byte{}, body[:s]...), []byte(e.text)...), body[en:]...)
+	}
+	// bindings of receiver and parameters
+	var binds []string
+	hinfo := h.Pkg.TypesInfo
+	used := func(o types.Object) bool { return usesObj(hinfo, hb, o) }
+	if h.Decl.Recv != nil {
+		rcv, _, isM := methodCall(call)
+		if !isM || len(h.Decl.Recv.List[0].Names) != 1 {
+			return "", name, "receiver shape"
+		}
+		rid, isId := unparen(rcv).(*ast.Ident)
+		if !isId {
+			return "", name, "the receiver of the call is not an identifier"
+		}
+		cr := h.Decl.Recv.List[0].Names[0]
+		if cr.Name != rid.Name && used(hinfo.Defs[cr]) {
+			binds = append(binds, cr.Name+" := "+rid.Name)
+		}
+	}
+	k := 0
+	for _, fl := range h.Decl.Type.Params.List {
+		for _, nm := range fl.Names {
+			if k >= len(call.Args) {
+				return "", name, "argument count"
+			}
+			aid, isId := unparen(call.Args[k]).(*ast.Ident)
+			if !isId {
+				return "", name, "an argument is not an identifier"
+			}
+			if nm.Name != aid.Name && nm.Name != "_" && used(hinfo.Defs[nm]) {
+				binds = append(binds, nm.Name+" := "+aid.Name)
+			}
+			k++
+		}
+	}
+	_, ts := off(res.List[0].Type.Pos())
+	_, te := off(res.List[0].Type.End())
+	decl := "var " + vID.Name + " " + string(src[ts:te]) + "\n"
+	if needErr {
+		decl += "var " + eID.Name + " error\n_ = " + eID.Name + "\n"
+	}
+	repl := decl + "{\n" + strings.Join(binds, "\n") + "\n" + string(body) + "\n}"
+	dir, err := os.MkdirTemp("", "godicheck-flat-")
+	if err != nil {
+		return "", name, err.Error()
+	}
+	scratchDirs = append(scratchDirs, dir)
+	if out, err := exec.Command("cp", "-a", w.Root+"/.", dir).CombinedOutput(); err != nil {
+		return "", name, "copy failed: " + string(out)
+	}
+	os.RemoveAll(filepath.Join(dir, ".git"))
+	edits := map[string][]edit{}
+	rf, rs := off(asg.Pos())
+	_, re := off(ifs.End())
+	edits[rf] = append(edits[rf], edit{rs, re, repl})
+	ds := h.Decl.Pos()
+	if h.Decl.Doc != nil {
+		ds = h.Decl.Doc.Pos()
+	}
+	df, dso := off(ds)
+	_, deo := off(h.Decl.End())
+	edits[df] = append(edits[df], edit{dso, deo, ""})
+	for file, es := range edits {
+		bts, err := os.ReadFile(file)
+		if err != nil {
+			return "", name, err.Error()
+		}
+		sort.Slice(es, func(i, j int) bool { return es[i].start > es[j].start })
+		for _, e := range es {
+			bts = append(append(append([]byte{}, bts[:e.start]...), []byte(e.text)...), bts[e.end:]...)
+		}
+		out, err := format.Source(bts)
+		if err != nil {
+			return "", name, "formatting the inlined " + file + ": " + err.Error()
+		}
+		if fixed, ierr := imports.Process(file, out, &imports.Options{Comments: true, TabIndent: true, TabWidth: 8}); ierr == nil {
+			out = fixed
+		}
+		rel, err := filepath.Rel(w.Root, file)
+		if err != nil {
+			return "", name, err.Error()
+		}
+		if err := os.WriteFile(filepath.Join(dir, rel), out, 0o644); err != nil {
+			return "", name, err.Error()
+		}
+	}
+	return dir, name, ""
+}
